@@ -427,7 +427,7 @@ func mkCid(i int) cid.Cid {
 type runner struct {
 	mu      sync.Mutex
 	trace   []vis
-	script  []bool
+	script  []string // per publish attempt: ok | fail (generic error) | failc (wraps context.Canceled) | faild (context.DeadlineExceeded)
 	nPub    int
 	pubDone chan struct{}
 	hold    chan struct{} // non-nil: pubfunc blocks until closed
@@ -451,10 +451,11 @@ func (r *runner) pubfunc(ctx context.Context, c cid.Cid) error {
 	id := r.cids[c.KeyString()]
 	r.mu.Lock()
 	r.trace = append(r.trace, vis{kind: "PS", cid: id})
-	ok := true
+	kind := "ok"
 	if r.nPub < len(r.script) {
-		ok = r.script[r.nPub]
+		kind = r.script[r.nPub]
 	}
+	ok := kind == "ok"
 	r.nPub++
 	hold := r.hold
 	r.mu.Unlock()
@@ -466,10 +467,17 @@ func (r *runner) pubfunc(ctx context.Context, c cid.Cid) error {
 	case r.pubDone <- struct{}{}:
 	default:
 	}
-	if !ok {
+	// any non-nil error is a failed publish, whatever its identity (the republisher itself is alive)
+	switch kind {
+	case "ok":
+		return nil
+	case "failc":
+		return fmt.Errorf("scripted publish failure: %w", context.Canceled)
+	case "faild":
+		return context.DeadlineExceeded
+	default:
 		return fmt.Errorf("scripted publish failure")
 	}
-	return nil
 }
 
 func (r *runner) update(c int) {
@@ -508,7 +516,7 @@ func execRun(c vh.Case, o *vh.Out) {
 		r.mu.Lock()
 		defer r.mu.Unlock()
 		for i := r.nPub; i < len(r.script); i++ {
-			if !r.script[i] {
+			if r.script[i] != "ok" {
 				return false
 			}
 		}
@@ -532,7 +540,7 @@ func execRun(c vh.Case, o *vh.Out) {
 			last = vh.Atoi(f[1])
 			tshort, tlong = vh.Atoi(f[2]), vh.Atoi(f[3])
 			for _, s := range f[4:] {
-				r.script = append(r.script, s == "ok")
+				r.script = append(r.script, s)
 			}
 			r.rp = mfs.NewRepublisher(r.pubfunc, time.Duration(tshort)*time.Millisecond, time.Duration(tlong)*time.Millisecond, mkCid(last))
 			o.Kind("run")
@@ -916,7 +924,7 @@ func genRun(r *vh.Rand, tier string, id string) vh.Case {
 	var script []string
 	for i, n := 0, r.Intn(6); i < n; i++ {
 		if r.Chance(1, 3) {
-			script = append(script, "fail")
+			script = append(script, vh.Pick(r, []string{"fail", "fail", "failc", "faild"}))
 		} else {
 			script = append(script, "ok")
 		}
